@@ -22,6 +22,7 @@ CONSTANTS
   InitDescs <- GenInit3
   Descs <- GenDescs3
   GIdents <- GIdentsT
+  GActions = {"update", "reply", "changed", "error_update", "error_read"}
   GLevels <- GLevelsT
   EmitOneIn = 8
   MaxCbs = 4
